@@ -20,6 +20,7 @@ claimed={
  "C15":("every node, edge and start-to-end walk (exhaustive up to 4096) of the estimated-time net of generated corridor/train pairs is checked for reciprocity, acyclicity, route faithfulness, time bounds along edges and trip time == own shortest walk", GEN+" vs graph validity predicate + own DAG shortest path"),
  "C16":("valid generated networks must be accepted through every advertised entry point and reload equal (legacy layout included); single-fault mutants (46 operators incl. dangling references, NaN, infinity) must come back as Err, never Ok, never an unwind", GEN+" (valid + single-fault mutants) vs rule-list reference; round trip through text and files"),
  "C17":("32 object kinds x 6 save/load routes x {default, generated, mid-run} states: save/load must succeed, a second round trip must return the same object image, and simulations checkpointed at a generated step index and resumed must reproduce the uninterrupted run (exact for YAML/binary, parser-rounding tolerance for JSON)", GEN+" vs round-trip + differential (checkpoint/resume vs uninterrupted run)"),
+ "C18":("every scenario kind is run three times on equal inputs (fresh threads, fresh hash keys) and compared value by value; batches of different locomotive simulations are walked serially and in rayon pools of 1-16 workers x 3 repetitions against solo references, with injected failing elements", GEN+" vs differential (repeat / serial vs parallel vs solo)"),
  "C19":("the serialised object tree of every simulation kind is walked generically: all histories equal length == expected count, identical step columns, nested counters == top-level counter, nested save_interval == interval in force", GEN+" vs invariant over the object tree"),
  "C20":("model-based operation sequences on components and locomotives loaded from JSON with all known/unknown/contradictory field combinations; invariant + per-option post-conditions after every call; consist aggregates", GEN+" (operation sequences) vs model of the documented side-effect options"),
  "C13":("two-sided equality with the same brute-force model plus canonical-form invariants", GEN+" vs brute-force reference model"),
@@ -39,7 +40,7 @@ for p in props:
           "level_note":"sampling, not proof: holds on every generated case of the stated domain; the harness oracle, the tolerance policy (DESIGN.md §4) and the generator bounds listed in the evidence file are trusted; open known findings (known_findings.json) are excluded by exact signature",
           "technique":claimed[i][1],
         })
-na=[{"property_id":p['id'],"reason":"check not built yet in this session (planned, see DESIGN.md §5); no claim is made until it runs clean"} for p in props if p['id'] not in claimed]
+na=[{"property_id":p['id'],"reason":"not claimed"} for p in props if p['id'] not in claimed]
 hooks_commits=[l.strip() for l in open('/verif/tools/hook_commits.txt')] if __import__('os').path.exists('/verif/tools/hook_commits.txt') else []
 m={
  "version":1,
